@@ -289,6 +289,15 @@ func runSeq(c seqCase) (what string, compared int) {
 	for depth, cnt := range c.Counts {
 		// siblings are all derived first (append aliasing needs the later derivation to happen before the earlier one logs)
 		sibs := []node{derive(cur, attrsN(cnt, c.Salt+depth*3)), derive(cur, attrsN(cnt, c.Salt+depth*3+1)), derive(cur, attrsN(1, c.Salt+depth*3+2))}
+		// a derived handler is enabled for exactly the levels its root is
+		for si, sb := range sibs {
+			for l := slog.Level(-8); l <= 12; l++ {
+				compared++
+				if got := sb.h.Enabled(context.Background(), l); got != (l >= configured(o)) {
+					return fmt.Sprintf("handler derived with attribute counts %v, sibling %d at depth %d: Enabled(%v)=%v with configured level %v", c.Counts[:depth+1], si, depth+1, l, got, configured(o)), compared
+				}
+			}
+		}
 		idx := [][]int{{0, 1, 2}, {1, 0, 2}, {2, 1, 0}, {0, 2, 1}}[c.Order%4]
 		for k, si := range idx {
 			for _, nat := range []int{0, 1, 3} {
